@@ -1,16 +1,24 @@
 #!/venv/bin/python
 """Prints the kill matrix of seeded regressions (seeded/*/meta.json) as a markdown table."""
-import glob, json, os
+import glob, json, os, re
 V = os.path.dirname(os.path.dirname(os.path.abspath(__file__)))
 rows = []
 for f in sorted(glob.glob(os.path.join(V, "seeded", "*", "meta.json"))):
     m = json.load(open(f))
-    what = m.get("what_and_needs", "").split("\n")[0]
-    what = what.replace("Change:", "").strip()
+    what = m.get("what_and_needs", "").strip().split("\n")
+    first = next((l for l in what if l.strip() and not l.strip().startswith("#")), "")
+    first = re.sub(r"^[-*\s]*(\*\*)?(Change|What the change is|What)(\*\*)?\s*:?\s*(\*\*)?", "", first).strip()
     det = m.get("detected_by", "")
-    rows.append((m["id"], m["breaks_property"], what[:150], det[:170]))
-print("| seeded change | property | what it changes (first line of the author's note) | result of the property's quick check |")
-print("|---|---|---|---|")
+    det = re.sub(r"; C\d\d quick: theorems.*$", "", det)
+    re_ = m.get("rechecked", "")
+    re_ = re.sub(r" \(C\d\d quick: theorems.*$", "", re_)
+    rows.append((m["id"], m["breaks_property"], first[:140], det[:150], re_[:90]))
+print("| seeded change | property | what it changes (first line of the author's note) | the property's quick check when the change was first tried | the same check at the end of the fourth session |")
+print("|---|---|---|---|---|")
 for r in rows:
-    print("| " + " | ".join(x.replace("|", "/") for x in r) + " |")
-print(f"\n{len(rows)} seeded changes kept.")
+    print("| " + " | ".join(x.replace("|", "/").replace("\n", " ") for x in r) + " |")
+n = len(rows)
+missed = [r[0] for r in rows if "MISSED" in r[3]]
+flag = [r[0] for r in rows if "no-failing-input-found" in r[3] and "with failing input" not in r[3]]
+print(f"\n{n} seeded changes kept; first-try results: {n - len(missed) - len(flag)} caught with a failing input, "
+      f"{len(flag)} flagged without one ({', '.join(flag)}), {len(missed)} missed ({', '.join(missed)}).")
